@@ -16,6 +16,7 @@ import Sekai.Driver.MultiStake
 import Sekai.Driver.GenesisCov
 import Sekai.Driver.Recovery
 import Sekai.Driver.Upgrade
+import Sekai.Driver.Layer2Oper
 /-! `sekai-model`: the model side of the correspondence check. One op per input line
 (`<domain> <op> <args…>`), one canonical observation per output line. Core Lean only. -/
 open Sekai
@@ -35,6 +36,7 @@ structure World where
   ms : Driver.MultiStake.St := {}
   recov : Driver.Recovery.St := {}
   upg : Upgrade.St := {}
+  l2opers : List Layer2.Oper := []
 
 def dispatch (w : World) (line : String) : World × String :=
   let toks := (line.trimAscii.toString.splitOn " ").filter (· ≠ "")
@@ -56,6 +58,7 @@ def dispatch (w : World) (line : String) : World × String :=
   | "ms" :: rest => let (s, o) := Driver.MultiStake.step w.ms rest; ({ w with ms := s }, o)
   | "gencov" :: rest => (w, Driver.GenesisCov.step rest)
   | "rec" :: rest => let (s, o) := Driver.Recovery.step w.recov rest; ({ w with recov := s }, o)
+  | "l2op" :: rest => let (s, o, out) := Driver.Layer2Oper.step w.l2 w.l2opers rest; ({ w with l2 := s, l2opers := o }, out)
   | "upg" :: rest => let (s, o) := Driver.Upgrade.step w.upg rest; ({ w with upg := s }, o)
   | ["reset"] => ({}, "ok")
   | [] => (w, "")
